@@ -193,7 +193,15 @@ fn random_grammar(rng: &mut Rng, name: &str) -> (String, Vec<&'static str>) {
         let hidden_args = rng.chance(1, 2);
         let an = if hidden_args { feats.push("field-on-hidden"); "_arg_list" } else { "arg_list" };
         rules.push(("call_expr".into(), prec(3, seq(vec![field("callee", sym("identifier")), field("args", sym(an))]))));
-        rules.push((an.into(), seq(vec![lit("("), opt(sep1(",", e())), lit(")")])));
+        if rng.chance(1, 2) {
+            // hidden rule nested in a hidden rule under a field: quantities travel through two levels
+            feats.push("nested-hidden");
+            rules.push((an.into(), seq(vec![lit("("), opt(sym("_arg_items")), lit(")")])));
+            let item = if rng.chance(1, 2) { e() } else { field("arg", e()) };
+            rules.push(("_arg_items".into(), sep1(",", item)));
+        } else {
+            rules.push((an.into(), seq(vec![lit("("), opt(sep1(",", e())), lit(")")])));
+        }
     }
     if rng.chance(3, 4) {
         alts.push(sym("binary_expr"));
@@ -265,6 +273,12 @@ fn random_grammar(rng: &mut Rng, name: &str) -> (String, Vec<&'static str>) {
         rules.push(("comment".into(), token(seq(vec![lit("#"), pat("[^\\n]*")]))));
         extras.push(sym("comment"));
         feats.push("extra-token");
+    }
+    if rng.chance(1, 3) {
+        // a NON-TERMINAL extra (may appear anywhere, has children of its own)
+        rules.push(("pragma".into(), seq(vec![lit("%"), field("what", sym("identifier")), opt(sym("number")), lit("%")])));
+        extras.push(sym("pragma"));
+        feats.push("extra-nonterminal");
     }
     let mut all: Vec<(String, Value)> = vec![("source_file".into(), rep(sym("_item"))), ("_item".into(), choice(items))];
     all.extend(rules);
@@ -366,7 +380,12 @@ fn main() {
         let name = format!("rg{}_{}", seed_from_env() % 100000, k);
         let (json, feats) = random_grammar(&mut grng, &name);
         let spec = format!("json:{}", hex(json.as_bytes()));
-        match build(&work, &name, &spec, &json, None, None, &mut ops, &mut list) {
+        // documents: separators sometimes contain the grammar's extras
+        let mut ws = vec![" ", "\n", "  "];
+        if feats.contains(&"extra-token") { ws.push(" # note\n"); }
+        if feats.contains(&"extra-nonterminal") { ws.push(" % ab % "); ws.push(" % cd 12 %\n"); }
+        let samples = serde_json::to_string(&json!({"whitespace": ws})).unwrap();
+        match build(&work, &name, &spec, &json, None, Some(samples), &mut ops, &mut list) {
             Ok(l) => {
                 rnd_built += 1;
                 writeln!(ops, "feat {name} {}", feats.join(",")).unwrap();
